@@ -491,6 +491,11 @@ def probe_switches(ctx, nsgenv, CR):
                 ctx.violations.append({"key": f"use_firewall={fw} not honoured",
                                        "what": f"{replay}: the scan of 192.168.1.0/24 from 192.168.2.2 found {sorted(in_net)} of {sorted(all_hosts)}; with the firewall {'on the scenario rules hide some hosts' if fw else 'off/absent every host answers'}",
                                        "replay": replay})
+            # a block placed now must be gone after the reset whatever the firewall switch says (second episode below)
+            d.send(a, msg("BlockIP", source_host=ip("192.168.2.2"), target_host=ip("192.168.2.2"), blocked_host=ip("192.168.1.3"))); d.settle()
+            blk = [json.loads(r[:-3].decode()) for r in d.new_output(a)]
+            if not detected and blk and blk[0].get("status") == "GameStatus.OK" and not blk[0]["observation"]["end"]:
+                docs.append(blk[0])
             d.send(a, msg("ResetGame", request_trajectory="True")); d.settle()
             o = [json.loads(r[:-3].decode()) for r in d.new_output(a)]
             if len(o) != 1 or "RESET_DONE" not in o[0].get("status", ""):
@@ -510,6 +515,18 @@ def probe_switches(ctx, nsgenv, CR):
                 ctx.violations.append({"key": f"save_trajectories={save} not honoured (use_global_defender={gd})",
                                        "what": f"{replay}: after the reset the trajectories folder holds {len(recs)} record(s) ({[len(r['trajectory']['actions']) for r in recs]} actions) for an episode of {len(docs)} actions; the switch is {'on' if save else 'off/absent'}",
                                        "replay": replay})
+            # second episode: the switch still has its configured effect (nothing of the first episode interferes)
+            d.send(a, scan); d.settle()
+            o2 = [json.loads(r[:-3].decode()) for r in d.new_output(a)]
+            if len(o2) == 1 and "observation" in o2[0]:
+                seen2 = {h["ip"] for h in o2[0]["observation"]["state"]["known_hosts"]}
+                in2 = {h for h in seen2 if ipaddress.ip_address(h) in net}
+                if in2 != in_net:
+                    ctx.violations.append({"key": f"use_firewall={fw}: the second episode sees a different network",
+                                           "what": f"{replay}: the same scan found {sorted(in_net)} in the first episode and {sorted(in2)} after the reset (a BlockIP of the first episode must be lifted; with the firewall {'on the scenario rules apply again' if fw else 'off/absent every host answers'})",
+                                           "replay": replay})
+            else:
+                ctx.violations.append({"key": "switch probe: second episode not answered", "what": f"{replay}: {len(o2)} answers {d.task_errors[:1]}", "replay": replay})
             if d.task_errors:
                 ctx.violations.append({"key": "task died in the switch probe", "what": f"{replay}: {d.task_errors[:1]}", "replay": replay})
         except Exception as e:
